@@ -77,6 +77,7 @@ class C15(Prop):
         "C15_decode_create_partial": "respin < 10^7 is a hypothesis: a respin of 8 or more digits is decoded as the date "
                                      "(C15_respin_witness, known finding F10); shorts/versions/types must not contain a line feed",
         "C15_suffixes_partial": "same hypothesis on the respin (at most 7 digits)",
+        "C15_unknown_suffix_partial": "same hypothesis on the respin (at most 7 digits)",
     }
 
     def __init__(self):
@@ -369,6 +370,7 @@ MANIFEST = dict(
          "layered or not, with or without the RHEL-5 variant part, every compose type of the regenerated table, every date of 8 digits and "
          "every respin < 10^7, getDateTypeRespin (createComposeId ..) = (date, type, respin); C15_prefix, C15_validates for the same ids; "
          "C15_tables (decide): decoder o encoder = id on COMPOSE_TYPES; C15_suffixes: every documented spelling decodes, missing "
-         "respin = 0, unknown suffix = ValueError.",
+         "respin = 0, unknown suffix = ValueError. C15_decoder_exact: on EVERY string the regex-driven decoder equals a directly "
+         "written one (last run of 8 digits starting in the first line, longest .letters, longest .digits).",
     note="respin >= 10^7 is decoded as the date (C15_respin_witness; known finding F10). str.lower() is modelled for ASCII only.",
     ref="7/C15")
